@@ -1035,11 +1035,100 @@ def gen_errtexts(out):
     gen_status_lines(out)
 
 
+def _passthrough_pool():
+    """every builtin exception class that can be raised as cls('x') (Warning categories left out)"""
+    import builtins
+    pool = []
+    for name in sorted(vars(builtins)):
+        c = getattr(builtins, name)
+        if not (isinstance(c, type) and issubclass(c, BaseException)) or c is BaseException or issubclass(c, Warning):
+            continue
+        if c.__name__ != name:                  # aliases (IOError, EnvironmentError = OSError)
+            continue
+        try:
+            c('x')
+        except Exception:
+            continue                            # needs other arguments (UnicodeDecodeError, ExceptionGroup, ...)
+        pool.append(c)
+    return pool
+
+
+def _passthrough_probe(fname):
+    """ask the code: which exception classes raised inside Ombott._handle (by the handler), Ombott._cast (by the first
+    next() of the handler's iterable) or reaching Ombott.wsgi (out of _handle, catchall on) are passed on to the
+    caller?  Returned as the canonical class-name list an `except (...): raise` clause would carry:
+    KeyboardInterrupt and SystemExit if they propagate, then the minimal propagating Exception subclasses by name.
+    Subclass matching is verified (every builtin subclass and a fresh user subclass of a listed class propagates, a
+    fresh subclass of Exception does not)."""
+    import io
+    mod = rt('ombott.ombott')
+
+    def environ():
+        return {'REQUEST_METHOD': 'GET', 'PATH_INFO': '/p', 'QUERY_STRING': '', 'SERVER_NAME': 'l', 'SERVER_PORT': '80',
+                'SERVER_PROTOCOL': 'HTTP/1.1', 'wsgi.url_scheme': 'http', 'wsgi.input': io.BytesIO(b''),
+                'wsgi.errors': io.StringIO(), 'SCRIPT_NAME': ''}
+
+    class Raiser:
+        def __init__(self, cls):
+            self.cls = cls
+
+        def __iter__(self):
+            return self
+
+        def __next__(self):
+            raise self.cls('Xq7Probe')
+
+    def propagates(cls):
+        app = mod.Ombott(dict(catchall=True))
+        state = {'raise': False}
+
+        @app.route('/p')
+        def h():
+            if state['raise']:
+                raise cls('Xq7Probe')
+            return 'x'
+        try:
+            if fname == '_handle':
+                state['raise'] = True
+                app._handle(environ())
+            elif fname == '_cast':
+                app._handle(environ())          # binds the per-thread request / response objects
+                app._cast(Raiser(cls))
+            else:
+                def boom(env):
+                    raise cls('Xq7Probe')
+                app._handle = boom
+                app.wsgi(environ(), lambda st, hd, ei=None: None)
+        except BaseException as e:              # noqa: the probe raises KeyboardInterrupt / SystemExit on purpose
+            if type(e) is cls and e.args == ('Xq7Probe',):
+                return True
+            raise Shape('%s: probing with %s raised %s: %s' % (fname, cls.__name__, type(e).__name__, str(e)[:80]))
+        return False
+
+    pool = [c for c in _passthrough_pool() if not (fname == '_cast' and issubclass(c, StopIteration))]
+    if len(pool) < 40:
+        raise Shape('pass-through probing: builtin exception pool too small (%d)' % len(pool))
+    prop = [c for c in pool if propagates(c)]
+    for c in pool:
+        if not issubclass(c, Exception) and c not in prop:
+            raise Shape('%s: probing: %s (not an Exception) does not propagate' % (fname, c.__name__))
+    exc = [c for c in prop if issubclass(c, Exception)]
+    minimal = sorted((c for c in exc if not any(d is not c and issubclass(c, d) for d in exc)), key=lambda c: c.__name__)
+    for m in minimal:
+        sub = type('Xq7Sub' + m.__name__, (m,), {})
+        if not propagates(sub) or any(issubclass(c, m) and c not in prop for c in pool):
+            raise Shape('%s: probing: %s propagates but not all of its subclasses' % (fname, m.__name__))
+    if Exception in minimal or propagates(type('Xq7Other', (Exception,), {})):
+        raise Shape('%s: probing: every Exception propagates' % fname)
+    return [c.__name__ for c in (KeyboardInterrupt, SystemExit) if c in prop] + [c.__name__ for c in minimal]
+
+
 @group('ombott.passthrough')
 def gen_passthrough(out):
     """ombott.py: the `except <classes>: raise` clauses of Ombott._handle, Ombott._cast and Ombott.wsgi — the
     exception classes that are passed on to the server instead of becoming an error page (cluster wsgiD1, C03).
-    The classes may be written as a tuple of names, one name, or the name of a module-level tuple constant."""
+    The classes may be written as a tuple of names, one name, or the name of a module-level tuple constant.
+    When a function has no single clause of that shape, the running code is asked (_passthrough_probe)."""
     tree, _ = parse('ombott/ombott.py')
     cls = find_class(tree, 'Ombott')
 
@@ -1058,9 +1147,7 @@ def gen_passthrough(out):
                 return [node.id]
         raise Shape('pass-through clause: unsupported exception expression %s' % ast.dump(node)[:80])
 
-    out.append('(* ombott.py: exception classes re-raised by the bare `except ...: raise` clauses (by class name; an '
-               'except clause also matches subclasses) *)')
-    for fname in ('_handle', '_cast', 'wsgi'):
+    def from_ast(fname):
         fn = find_func(cls, fname)
         found = []
         for n in ast.walk(fn):
@@ -1069,8 +1156,19 @@ def gen_passthrough(out):
                 found.append(names_of(n.type))
         if len(found) != 1:
             raise Shape('%s: expected exactly one `except ...: raise` clause, found %d' % (fname, len(found)))
+        return found[0]
+
+    out.append('(* ombott.py: exception classes re-raised by the bare `except ...: raise` clauses (by class name; an '
+               'except clause also matches subclasses) *)')
+    for fname in ('_handle', '_cast', 'wsgi'):
+        try:
+            names = from_ast(fname)
+        except Shape as e:
+            names = _passthrough_probe(fname)
+            out.append('(* Ombott.%s: obtained by probing every builtin exception class (source shape not recognised: '
+                       '%s) *)' % (fname, str(e).replace('*)', '* )').replace('(*', '( *')[:120]))
         out.append('Definition passthrough_%s : list (list N) := %s.'
-                   % (fname.strip('_'), coq_list(coq_str(x) for x in found[0])))
+                   % (fname.strip('_'), coq_list(coq_str(x) for x in names)))
 
 
 def generate():
